@@ -366,6 +366,7 @@ pub fn run(tier: Tier) -> i32 {
     acc.note_n("decode_inputs_extreme", extreme.len() as u64);
     acc.nontrivial += acc.accepting;
 
+    crate::envprobe::judge(&mut acc, "C20:", &mut c.extra);
     c.acc = acc;
     c.rule = format!(
         "pack: every (type, payload) with type <= {pack_len} chars over {{SP,1,a,é}} and payload <= {pack_len} bytes over {{SP,1,a,0xff}} (round trip through unpack and try_unpack, equality with the DSSE reference, pairwise distinctness via one hash set); \
